@@ -195,6 +195,28 @@ class Plain:
     pass
 
 
+class RaisingIter:
+    """iterator object (its own iterator) that raises at its k-th next()"""
+    def __init__(self, k, raiser):
+        self.k, self.i, self.raiser = k, 0, raiser
+
+    def __iter__(self):
+        return self
+
+    def __next__(self):
+        self.i += 1
+        if self.i >= self.k:
+            self.raiser()
+        return self.i
+
+
+def raising_gen(k, raiser):
+    for i in range(1, k):
+        yield i
+    raiser()
+    yield -1
+
+
 # ---- leaves ----------------------------------------------------------------------------------
 USER_HOWS = ['fn', 'invoke', 'tcall']
 GLOM_LEAVES = {
@@ -243,6 +265,17 @@ class World:
                 spec = self.P(top, spec, self.log)
             elif inner == 'pathget':
                 spec, target = 'p', PropTarget(raiser)
+                top = self.n - 1
+                spec = self.P(top, spec, self.log)
+            elif inner == 'geniter':
+                k = 1 if ctxs[-1]['v'] == 'k1' else 2
+                h = how % 3
+                if h == 0:
+                    spec, target = [T], raising_gen(k, raiser)
+                elif h == 1:
+                    spec, target = [ident], RaisingIter(k, raiser)
+                else:
+                    spec, target = ('rows', [T]), {'rows': raising_gen(k, raiser)}
                 top = self.n - 1
                 spec = self.P(top, spec, self.log)
             else:
@@ -334,10 +367,14 @@ class World:
     # ---- running and projecting ---------------------------------------------------------------
     def kwargs(self, kw):
         out = {}
-        if kw['default'] == 'obj':
-            out['default'] = TOPDEFAULT
-        elif kw['default'] == 'none':
+        d = kw['default']
+        if d == 'none':
             out['default'] = None
+        elif d != 'absent':
+            # the default object the caller passes; "the default object itself" must come back
+            self.topdefault = {'obj': lambda: Sent('topdflt', 0), 'list': lambda: [1, 2],
+                               'dictT': lambda: {'k': T['missing'], 'l': [3]}, 't': lambda: T}[d]()
+            out['default'] = self.topdefault
         if kw['skip'] != 'absent':
             out['skip_exc'] = self.skipcls(kw['skip'])
         if kw['debug']:
@@ -396,7 +433,7 @@ class World:
         """project what left glom() relative to what reached the top level"""
         st, obj = out
         if st == 'value':
-            if obj is TOPDEFAULT:
+            if getattr(self, 'topdefault', None) is not None and obj is self.topdefault:
                 return {'st': 'value', 'val': 'topdflt', 'at': 0}
             if obj is None:
                 return {'st': 'value', 'val': 'none', 'at': 0}
